@@ -730,6 +730,28 @@ impl<'tcx> Cx<'tcx> {
                 return o;
             }
         }
+        // a newtype around one integer (`struct Depth(u8)`, `const LIMIT: Depth = Depth(128)`): the integer inside
+        if let ty::Adt(adt, args) = ty.kind() {
+            if adt.is_struct() && adt.all_fields().count() == 1 {
+                let fty = adt.non_enum_variant().fields.iter().next().unwrap().ty(tcx, args);
+                if fty.is_integral() || fty.is_bool() || fty.is_char() {
+                    let nv = match c {
+                        Const::Val(v, _) => Some(*v),
+                        _ => c.eval(tcx, env, rustc_span::DUMMY_SP).ok(),
+                    };
+                    if let Some(ConstValue::Scalar(Scalar::Int(si))) = nv {
+                        let size = si.size();
+                        let v: i128 = if fty.is_signed() {
+                            si.to_int(size)
+                        } else {
+                            si.to_uint(size) as i128
+                        };
+                        o.set("newtype_int", J::Int(v));
+                        return o;
+                    }
+                }
+            }
+        }
         // references to byte arrays / slices / str
         let val = match c {
             Const::Val(v, _) => Some(*v),
